@@ -834,3 +834,183 @@ def parse_cfg_world(case):
             i += 3
         world.append((nm, topics, groups))
     return cfg if isinstance(cfg, dict) else {}, world
+
+
+# ------------------------------------------------------------------------------------------------
+# C16 file-configuration cases: the configuration is a TOML document read with viper.ReadConfig, the real coordinators
+# are configured in start-up order, then every /v3/config/** and /v3/kafka/:cluster route is swept
+# (probes/http/verif_http_file_probe_test.go)
+# ------------------------------------------------------------------------------------------------
+
+def toml_value(v):
+    kind, x = v
+    if kind == "s":
+        return '"' + x.replace("\\", "\\\\").replace('"', '\\"') + '"'
+    if kind == "n":
+        return str(x)
+    if kind == "b":
+        return "true" if x else "false"
+    if kind == "l":
+        return "[" + ", ".join(toml_value(("s", e)) for e in x) + "]"
+    raise ValueError(kind)
+
+
+def toml_doc(cfg):
+    """cfg: {section: {key: leaf}} or {section: {module: {key: leaf}}} -> TOML text ([section] / [section.module] tables)."""
+    out = []
+    for sect, body in cfg.items():
+        scalars = {k: v for k, v in body.items() if not isinstance(v, dict)}
+        if scalars:
+            out.append("[%s]" % sect)
+            out += ["%s = %s" % (k, toml_value(v)) for k, v in scalars.items()]
+            out.append("")
+        for mod, kv in body.items():
+            if isinstance(kv, dict):
+                out.append("[%s.%s]" % (sect, mod))
+                out += ["%s = %s" % (k, toml_value(v)) for k, v in kv.items()]
+                out.append("")
+    return "\n".join(out) + "\n"
+
+
+FILE_NAMES = ["local", "Local", "c1", "C2", "prod-east", "Mixed", "default", "n1", "Mail", "hook", "zk_1", "a", "X", "ProdWest"]
+FILE_SECTIONS = ("storage", "evaluator", "cluster", "consumer", "notifier")
+
+
+def _case_variant(rng, nm):
+    return rng.choice([nm, nm, nm.lower(), nm.upper()])
+
+
+def gen_filecfg(rng, i, repo_config_dir):
+    def names(lo, hi):
+        n = rng.randint(lo, hi)
+        out = []
+        for nm in rng.sample(FILE_NAMES, len(FILE_NAMES)):
+            if len(out) < n and nm.lower() not in [o.lower() for o in out]:
+                out.append(nm)
+        return out
+
+    cfg = {}
+    if rng.random() < 0.6:
+        cfg["general"] = {"pidfile": ("s", "burrow.pid"), "access-control-allow-origin": ("s", "*")}
+    cfg["storage"] = {nm: {"class-name": ("s", "inmemory"), "intervals": ("n", rng.randint(2, 15)), "expire-group": ("n", 604800)}
+                      for nm in names(1, 1)}
+    cfg["evaluator"] = {nm: {"class-name": ("s", "caching"), "expire-cache": ("n", 10)} for nm in names(1, 1)}
+    profiles = names(0, 2)
+    if profiles:
+        cfg["client-profile"] = {nm: {"kafka-version": ("s", "2.0.0"), "client-id": ("s", "burrow-" + nm.lower())} for nm in profiles}
+    clusters = names(1, 3)
+    cfg["cluster"] = {}
+    for nm in clusters:
+        c = {"class-name": ("s", "kafka"), "servers": ("l", ["127.0.0.1:1"]), "topic-refresh": ("n", 60), "offset-refresh": ("n", 30)}
+        if profiles and rng.random() < 0.6:
+            c["client-profile"] = ("s", _case_variant(rng, rng.choice(profiles)))
+        cfg["cluster"][nm] = c
+    consumers = names(0, 4) if rng.random() < 0.85 else []
+    if consumers:
+        cfg["consumer"] = {}
+        for nm in consumers:
+            # the cluster is referred to as written, lower-cased or upper-cased: viper's keys are case-insensitive
+            c = {"class-name": ("s", "kafka"), "cluster": ("s", _case_variant(rng, rng.choice(clusters))),
+                 "servers": ("l", ["127.0.0.1:1"]), "start-latest": ("b", True)}
+            if rng.random() < 0.3:
+                c = {"class-name": ("s", "kafka_zk"), "cluster": ("s", _case_variant(rng, rng.choice(clusters))),
+                     "servers": ("l", ["127.0.0.1:1"]), "zookeeper-path": ("s", "/kafka")}
+            elif profiles and rng.random() < 0.6:
+                c["client-profile"] = ("s", _case_variant(rng, rng.choice(profiles)))
+            cfg["consumer"][nm] = c
+    notifiers = names(1, 3) if rng.random() < 0.5 else []
+    if notifiers:
+        cfg["zookeeper"] = {"servers": ("l", ["127.0.0.1:1"]), "root-path": ("s", "/burrow")}
+        cfg["notifier"] = {}
+        for nm in notifiers:
+            cls = rng.choice(["http", "email", "null"])
+            n = {"class-name": ("s", cls), "interval": ("n", 60), "send-close": ("b", False)}
+            if cls == "http":
+                n.update({"url-open": ("s", "http://127.0.0.1:1/open"),
+                          "template-open": ("s", repo_config_dir + "/default-http-post.tmpl")})
+            elif cls == "email":
+                n.update({"server": ("s", "127.0.0.1"), "port": ("n", 25), "from": ("s", "burrow@example.com"),
+                          "to": ("s", "oncall@example.com"), "template-open": ("s", repo_config_dir + "/default-email.tmpl")})
+            else:
+                n.update({"template-open": ("s", repo_config_dir + "/default-http-post.tmpl")})
+            cfg["notifier"][nm] = n
+    # the sweep
+    reqs = [("/v3/config", None, None)]
+    for sect in FILE_SECTIONS:
+        reqs.append(("/v3/config/" + sect, sect, None))
+        pats = ["/v3/config/%s/%%s" % sect] + (["/v3/kafka/%s"] if sect == "cluster" else [])
+        for nm in list(cfg.get(sect, {})) + ["nosuch"]:
+            variants = {nm, nm.lower(), nm.upper(), nm + "x", nm + ".class-name"} if nm != "nosuch" else {nm}
+            for v in sorted(variants):
+                for pat in pats:
+                    reqs.append((pat % escape(v.encode()), sect, v))
+    rng.shuffle(reqs)
+    doc = toml_doc(cfg)
+    toks = ["filecfg", hx(doc), "C"] + tree_tokens(cfg) + ["Q", str(len(reqs))]
+    for raw, _, _ in reqs:
+        toks += ["GET", hx(raw), hx(raw if "%" not in raw else urllib.parse.unquote_to_bytes(raw))]
+    meta = {"kind": "filecfg", "cfg": cfg, "doc": doc, "reqs": reqs}
+    return " ".join(toks), meta
+
+
+def oracle_filecfg(meta, impl):
+    """The property on a configuration FILE: every module of the file is listed by its section's list route and answers
+    200 error=false on its detail route (names are case-insensitive); unknown names answer 404 error=true."""
+    f = impl.split()
+    if len(f) < 3 or f[0] != "FILE":
+        return "violation", "harness: " + impl[:200]
+    if f[1] != "ok":
+        parts = f[1].split(":")
+        msg = unhx(parts[-1]).decode("utf-8", "replace") if len(parts) > 1 else f[1]
+        return "violation", "a configuration the generator builds as valid was refused: %s: %s" % (":".join(parts[:-1]), msg[:300])
+    obs = f[3:]
+    if len(obs) != len(meta["reqs"]):
+        return "violation", "harness: %d observations for %d requests" % (len(obs), len(meta["reqs"]))
+    cfg = meta["cfg"]
+    for (raw, sect, name), o in zip(meta["reqs"], obs):
+        if o in ("CRASH", "BADURL"):
+            return "violation", "GET %s: %s" % (raw, o)
+        code, errf, lst = o.split(":")
+        if sect is None:
+            if not (code == "200" and errf == "f"):
+                return "violation", "GET %s answered %s error=%s" % (raw, code, errf)
+            continue
+        have = sorted(k.lower() for k in cfg.get(sect, {}))
+        if name is None:
+            got = unhx(lst).decode("utf-8", "replace") if lst != "-" else None
+            if not (code == "200" and errf == "f"):
+                return "violation", "GET %s answered %s error=%s" % (raw, code, errf)
+            if got != "[" + ",".join(have) + "]":
+                return "violation", "GET %s lists %s, the configuration file has %s" % (raw, got, have)
+            continue
+        exists = name.lower() in have
+        if exists and not (code == "200" and errf == "f"):
+            return "violation", ("GET %s answered %s error=%s although [%s.%s] is in the configuration file"
+                                 % (raw, code, errf, sect, [k for k in cfg[sect] if k.lower() == name.lower()][0]))
+        if not exists and not (code == "404" and errf == "t"):
+            return "violation", "GET %s answered %s error=%s although the file has no %s module of that name" % (raw, code, errf, sect)
+    return "ok", "filecfg-ok"
+
+
+def filecfg_meta_from_line(case):
+    """Rebuild the oracle's knowledge from a `filecfg` line (replays, corpus)."""
+    f = case.split()
+    doc = unhx(f[1]).decode("utf-8", "replace")
+    cfg, i = _parse_tree(f, f.index("C") + 1)
+    assert f[i] == "Q"
+    n = int(f[i + 1])
+    reqs = []
+    for k in range(n):
+        raw = unhx(f[i + 2 + 3 * k + 1]).decode()
+        segs = [urllib.parse.unquote(s) for s in raw.split("/")[1:]]
+        if segs[:2] == ["v3", "kafka"] and len(segs) == 3:
+            reqs.append((raw, "cluster", segs[2]))
+        elif segs[:2] == ["v3", "config"] and len(segs) == 2:
+            reqs.append((raw, None, None))
+        elif segs[:2] == ["v3", "config"] and len(segs) == 3:
+            reqs.append((raw, segs[2], None))
+        elif segs[:2] == ["v3", "config"] and len(segs) == 4:
+            reqs.append((raw, segs[2], segs[3]))
+        else:
+            reqs.append((raw, None, None))
+    return {"kind": "filecfg", "cfg": cfg, "doc": doc, "reqs": reqs}
